@@ -317,10 +317,12 @@ impl Property for C06 {
             1 => Just(vec![Ev::PollCtx]),
             1 => sel().prop_map(|sel| vec![Ev::PollOp { sel }]),
         ];
-        (vec(ev, 1..tier.pick(40, 120)), id_offset(2), prologue_variant())
-            .prop_map(|(evs, id_offset, prologue)| Scenario {
-                receive_max: None,
-                max_packet_size: None,
+        // also under a small Receive Maximum / Maximum Packet Size: local refusals are part of the
+        // statement, and a refusal must never hit an exchange that is already on the wire
+        (vec(ev, 1..tier.pick(40, 120)), id_offset(2), prologue_variant_no_inbound(), rm_small(), max_pkt())
+            .prop_map(|(evs, id_offset, prologue, receive_max, max_packet_size)| Scenario {
+                receive_max,
+                max_packet_size,
                 id_offset,
                 prologue,
                 events: evs.into_iter().flatten().collect(),
